@@ -5,6 +5,9 @@ from .. import alphabet as al, dsl, explore, monitors, rx
 def phases_for(tier):
     """-> list of (atoms, levels, nested_tail)"""
     q, gq, an, bi = dsl.quantifier_ops(), dsl.group_ops(), dsl.anchor_ops(), dsl.binary_ops()
+    co = dsl.cond_ops()
+    an = an + co[:1]
+    bi = bi + co[1:]
     cq = dsl.core_quantifier_ops()
     core, small, tiny = al.core_atoms(), al.small_atoms(), al.tiny_atoms()
     L = explore.Level
@@ -100,7 +103,7 @@ def run_C08(run):
     cat = [o for o in dsl.binary_ops() if o.name in ('concat', 'either')]
     partners = [("Pregex('b')", 'b'), ("Capture('c')", None), ("Capture('c', 'z')", None)]
     atoms = al.atom_list(['a', '(', ')', '?:', '?P<', '(?P<x>', '(?i:', '(a)', '(?:a)', 'A'],
-                         ["AnyLetter()", "Either('a', 'B')", "FollowedBy(Pregex(), 'b')", "NotPrecededBy(Pregex(), 'b')",
+                         ["AnyLetter()", "AnyButFrom(')')", "AnyFrom('(', 'a')", "OneOrMore(AnyButFrom(')'))", "AnyFrom('?', ':')", "Either('a', 'B')", "FollowedBy(Pregex(), 'b')", "NotPrecededBy(Pregex(), 'b')",
                           "FollowedBy('a', 'b')", "Conditional('n', 'a')", "Conditional('n', 'a', 'B')", 'Backreference(1)',
                           "Backreference('n')", "Capture('a')", "Capture('a', 'x')", "Group('a', True)", "Group('aB')", 'Pregex()'])
     depth = 4 if run.tier == 'quick' else 5
